@@ -493,9 +493,46 @@ class ExtMixin(object):
 
     def x_callable(self, args, kwargs, node, env):
         v = args[0]
-        if isinstance(v, (FuncV, DerivV, ClassV)):
+        if isinstance(v, (FuncV, DerivV, ClassV, NTClassV)):
             return TRUE
+        if isinstance(v, PyObjV):
+            return Const(hasattr(v.obj, "m___call__"))
+        if isinstance(v, InstV) and v.label is None:
+            if v.ci.lookup("__call__") is not None:
+                return TRUE
+            from .model import ExternalClass
+            ext = [c for c in v.ci.mro() if isinstance(c, ExternalClass) and c.name.split(".")[-1] != "object"]
+            if not ext:
+                return FALSE
+            if any(c.name.split(".")[-1] == "partial" for c in ext):
+                return TRUE
+        if isinstance(v, (Num, Const, ListV, DictV, NTV)) or is_strlike(v):
+            return FALSE
+        if isinstance(v, (Opaque, LookupV, InstV, Phi)):
+            r = self.assume(Cond("callable", v))
+            return Const(r) if isinstance(r, bool) else r
         self.err(node, "callable(%r)" % (v,))
+
+    def x_operator_index(self, args, kwargs, node, env):
+        v = args[0]
+        if isinstance(v, Num):
+            c = v.const()
+            if c is not None:
+                if c.denominator == 1 and not v.inexact:
+                    return v
+                raise RaiseSignal(ExcV(ExtV("builtins.TypeError"), [Const("not an integer")]), node)
+            if not v.inexact:
+                return v        # a whole-number symbol
+            self.err(node, "operator.index of a symbolic float")
+        if isinstance(v, (Const, ListV, DictV)) or is_strlike(v):
+            raise RaiseSignal(ExcV(ExtV("builtins.TypeError"), [Const("not an integer")]), node)
+        if isinstance(v, Phi) and v.a is not None and v.b is not None:
+            a = self.with_path(v.cond, True, lambda: self.x_operator_index([v.a], {}, node, env))
+            b = self.with_path(v.cond, False, lambda: self.x_operator_index([v.b], {}, node, env))
+            return make_phi(v.cond, a, b)
+        if isinstance(v, (Opaque, LookupV)):
+            return v        # an opaque count (e.g. the parser's nr, produced by int()): a whole number
+        self.err(node, "operator.index(%r)" % (v,))
 
     def x_super(self, args, kwargs, node, env):
         # super() / super(Class, self)
@@ -689,6 +726,16 @@ class ExtMixin(object):
         if not isinstance(seq, ListV):
             self.err(node, "combinations of a symbolic sequence")
         return ListV([ListV(list(p), "tuple") for p in _it.combinations(seq.items, int(args[1].const()))], "list")
+
+    def x_csv_writer(self, args, kwargs, node, env):
+        """csv.writer(f, lineterminator=...) for rows of plain fields (default 'excel' dialect: ',' delimiter, '\\r\\n'
+        terminator, minimal quoting - fields that would need quoting are outside the model)"""
+        if len(args) != 1 or set(kwargs) - {"lineterminator"}:
+            self.err(node, "csv.writer arguments")
+        lt = kwargs.get("lineterminator", Const("\r\n"))
+        if not (isinstance(lt, Const) and isinstance(lt.v, str)):
+            self.err(node, "csv.writer lineterminator")
+        return PyObjV(_CsvWriter(args[0], lt.v))
 
     def x_collections_defaultdict(self, args, kwargs, node, env):
         if kwargs or len(args) > 1:
@@ -1060,6 +1107,22 @@ class SuperV(V):
 
     def key(self):
         return ("super", self.ci.fq)
+
+
+class _CsvWriter(object):
+    def __init__(self, f, lt):
+        self.f, self.lt = f, lt
+
+    def m_writerow(self, I, args, kwargs):
+        if kwargs or len(args) != 1:
+            raise AnalysisError("csv writerow arguments")
+        row = I.as_iterable(args[0])
+        for it in (row.items if isinstance(row, ListV) and not getattr(row, "tail", None) else []):
+            if isinstance(it, Const) and isinstance(it.v, str) and any(ch in it.v for ch in ',"\r\n'):
+                raise AnalysisError("csv field %r needs quoting" % (it.v,))
+        s = I.join(Const(","), args[0], None)
+        I.write_to(self.f, I.str_concat(s, Const(self.lt)) if hasattr(I, "str_concat") else StrV(SCat([to_node(s), SLit(self.lt)])), None)
+        return NONE
 
 
 class SetAccV(V):
